@@ -121,10 +121,10 @@ def classify(diag, lines, meta):
             "rendered": diag.get("rendered", "")[:3000]}
 
 
-def run_unit(unit, twin=None, seed=None, rlimit=None, outdir=None, multiple_errors=40, timeout=1800):
+def run_unit(unit, twin=None, seed=None, rlimit=None, outdir=None, multiple_errors=40, timeout=1800, extra=None):
     t0 = time.time()
     try:
-        path, meta = vgen.generate(unit, twin, outdir)
+        path, meta = vgen.generate(unit, twin, outdir or os.environ.get("VERIF_BUILD"))
     except vgen.LostAnchor as e:
         return {"status": "undecided", "undecided_reason": "extractor: %s" % e, "verified": 0, "errors": 0,
                 "failures": [], "functions": [], "cmd": "", "meta": None, "wall_s": time.time() - t0}
@@ -132,6 +132,8 @@ def run_unit(unit, twin=None, seed=None, rlimit=None, outdir=None, multiple_erro
            "--multiple-errors", str(multiple_errors)]
     if rlimit:
         cmd += ["--rlimit", str(rlimit)]
+    if extra:
+        cmd += list(extra)
     if seed is not None:
         cmd += ["--smt-option", "smt.random_seed=%d" % seed, "--smt-option", "sat.random_seed=%d" % seed]
     try:
@@ -214,9 +216,9 @@ def scan_assumptions(path):
         # find the fn / item it applies to
         name = "?"
         for k in range(ln - 1, min(ln + 6, len(lines))):
-            mm = re.search(r"\bfn\s+(\w+)|assume_specification.*\[\s*([\w:<>]+)", lines[k])
+            mm = re.search(r"\bfn\s+(\w+)|assume_specification.*\[\s*([\w:<>]+)|\bstruct\s+(\w+)", lines[k])
             if mm:
-                name = mm.group(1) or mm.group(2)
+                name = mm.group(1) or mm.group(2) or mm.group(3)
                 break
         found.append({"what": m.group(0).strip("( "), "line": ln, "name": name})
     return found
